@@ -220,7 +220,10 @@ pub fn run(ctx: &Ctx) -> i32 {
         }
       }
       Job::Nested(d) => {
-        let hw: Vec<u64> = if [17u8, 20, 24, 29].contains(d) || (!quick && *d >= 14) { halfword_sweep_cells(*d) } else { vec![] };
+        let mut hw: Vec<u64> = if [17u8, 20, 24, 29].contains(d) || (!quick && *d >= 14) { halfword_sweep_cells(*d) } else { vec![] };
+        if [18u8, 22, 29].contains(d) {
+          hw.extend(literal_cells(&source_literals().0, *d, if quick { 150 } else { 400 }));
+        }
         for h in class_cells(*d).into_iter().chain(carry_cells(*d, true).into_iter()).chain(hw.into_iter()) {
           part.stratum("nested-class-cells", 1, 2);
           if let Some(v) = check_nested_cell(*d, h, &mut part) {
